@@ -183,7 +183,9 @@ class RenderColumnHeaders(Contract):
         body = c.alloc(RecObj("RTFBody", {"as_colheader": c.fresh("as_colheader", T.Bool), "col_rel_width": body_rel}, pyclass=body_cls, fresh=False))
         col_width = c.fresh("col_width", T.Real)
         c.requires("table_width_positive", col_width > 0)
-        rpage = c.alloc(RecObj("RTFPage", {"col_width": col_width, "border_first": c.fresh("border_first", T.Str)}, fresh=False))
+        border_first = c.fresh("border_first", T.Str)
+        rpage = c.alloc(RecObj("RTFPage", {"col_width": col_width, "border_first": border_first}, fresh=False))
+        c.v.update(border_first=border_first, page_ref=None)
         nh = z3.Int(fresh_name("n_headers"))
         c.requires("header_count", nh >= 0)
         HN = z3.Function(fresh_name("header_is_none"), z3.IntSort(), z3.BoolSort())
@@ -217,6 +219,10 @@ class RenderColumnHeaders(Contract):
         doc = c.alloc(RecObj("RTFDocument", {"rtf_column_header": hdrs, "rtf_body": body, "rtf_page": rpage, "df": fresh_df(c.st, "doc_df")}, fresh=False))
         c.bind("document", doc)
         c.bind("page", page)
+        c.v.update(page_ref=page)
+
+    def _v_page(self, st):
+        return self._v["page_ref"]
 
     # domain facts about header k, assumed when the loop body meets it (RTFDocument.__init__ / user configuration)
     def header_domain(self, st, ref, v=None):
@@ -234,7 +240,12 @@ class RenderColumnHeaders(Contract):
     @property
     def summaries(self):
         def update_row(I, st, args, kwargs, node):
-            return BTOP(IntVal(args[0].oid))
+            # unit UpdateRow: the broadcast value with row `args[1]` replaced by the list `args[2]`
+            bv = st.obj(args[0])
+            n, g = as_symlist(st, st.obj(args[2]))
+            tok = BTOP(IntVal(args[0].oid))
+            st.ghost["__btop__"] = {"token": tok, "row": args[1], "n": n, "g": g, "old": bv.fields.get("value"), "dim": bv.fields.get("dimension")}
+            return tok
 
         def encode_header(I, st, args, kwargs, node):
             vv = self._v
@@ -270,6 +281,23 @@ class RenderColumnHeaders(Contract):
                     ok = to_z3(rn) == to_z3(ncells)
                 # EncodeColumnHeader's precondition: one relative width per header cell (else the header's right edge is not the table's)
                 I.oblige(st, f"C08.header_has_one_relative_width_per_cell@L{site}", Implies(Not(none_cond), ok), "post", site)
+            # C07: the first header row of the first page carries rtf_page.border_first on its top edge (all cells); every other header row
+            # keeps its own border_top
+            bt = a.fields.get("border_top")
+            info = st.ghost.get("__btop__")
+            idx_i = to_z3(st.ghost.get("__iter_index__", IntVal(0)))
+            pagefirst = to_z3(st.obj(self._v_page(st)).fields["is_first_page"])
+            bfirst = to_z3(self._v["border_first"])
+            applies = And(pagefirst, idx_i == 0, bfirst != lit(""), Not(none_cond))
+            if info is not None and z3.is_expr(bt) and bt.eq(info["token"]):
+                kq = z3.Int("kq")
+                cells = to_z3(ncells) if ncells is not None else IntVal(0)
+                I.oblige(st, f"C07.page_border_first_goes_on_the_first_header_row_of_the_first_page_only@L{site}", applies, "post", site)
+                I.oblige(st, f"C07.page_border_first_covers_every_cell_of_that_row@L{site}",
+                         And(to_z3(info["row"]) == 0, to_z3(info["n"]) == cells,
+                             ForAll([kq], Implies(And(0 <= kq, kq < cells), to_z3(norm_str(info["g"](kq))) == bfirst))), "post", site)
+            else:
+                I.oblige(st, f"C07.first_header_row_of_the_first_page_gets_page_border_first@L{site}", Not(applies), "post", site)
             # C03: a header row is rendered only for a header the row budget reserved a row for.  The reservation
             # (calculate_additional_rows_per_page, unit AdditionalRows) counts exactly the headers whose OWN text is set.
             orig = I.lookup(st, "header")
